@@ -6,8 +6,9 @@
         (acc, enc / w0 = can it be encoded)
    rt   to_text under (origin config oc, style st) then from_text under oc: did producing
         text raise, did parsing raise, the encoding of the parsed record, equality flags
-        (eq0: with the original object, eqr / eqa: with the value decoded from w0 with /
-        without relativization), and whether the parsed record can produce text again
+        (eq0: with the original object, eqa / eqr / eqs: with the value decoded from w0
+        absolute / relativized to the origin / to the sub-origin), wire1 (wire1s) = its encoding
+        completed with the origin (sub-origin), and whether the parsed record can produce text again
    gen  to_generic().to_text() parsed as the record's own type under gc
    Hard clauses = the statements of C05:
      TextOk       producing text never fails for a record accepted from text or wire
@@ -45,8 +46,14 @@ TSrcText ==
             /\ AcceptText(e.w0, e.trel)
     /\ Adv
 
-\* the equality flag that must hold for a parsed record of relativity r
-EqFlag(r) == IF r = rel THEN e.eq0 \/ (IF r THEN e.eqr ELSE e.eqa) ELSE (IF r THEN e.eqr ELSE e.eqa)
+\* the equality flag that must hold for a parsed record of base r: equal to the same RDATA decoded
+\* absolute (eqa), relativized to the origin (eqr) or to the sub-origin (eqs); the original object
+\* itself (eq0) also qualifies when the base is unchanged
+RefEq(r) == IF r = "abs" THEN e.eqa ELSE IF r = "org" THEN e.eqr ELSE e.eqs
+EqFlag(r) == IF r = rel THEN e.eq0 \/ RefEq(r) ELSE RefEq(r)
+\* the encoding of the parsed record, completed with the origin of ITS base
+\* (wire1s = under the sub-origin is logged for the configurations that can yield base "sub")
+WireOf(r) == IF r = "sub" THEN e.wire1s ELSE e.wire1
 
 Parsed(pfx) ==      \* clauses about a record obtained from text (it was accepted from text)
     /\ Check(t, l, "EncodeOk", e.enc = "ok")
@@ -55,13 +62,14 @@ TRt ==
     /\ e.op = "rt"
     /\ Check(t, l, "ConfigDeclared", (\E c \in OrgConfigs : c.id = e.oc) /\ e.st \in StyleIds)
     /\ LET oc == CHOOSE c \in OrgConfigs : c.id = e.oc IN
+       /\ Check(t, l, "ConfigApplicable", Applicable(oc, rel))
        /\ RoundTrip(oc, e.st)
        /\ Check(t, l, "TextOk", e.text = "ok")
        /\ IF lenient
           THEN (IF e.parse = "ok" THEN Parsed("") ELSE TRUE)
           ELSE /\ Check(t, l, "ParseOk", e.parse = "ok")
                /\ Parsed("")
-               /\ Check(t, l, "WireEq", e.wire1 = obs'.wire)
+               /\ Check(t, l, "WireEq", WireOf(obs'.rel) = obs'.wire)
                /\ Check(t, l, "Equal", EqFlag(obs'.rel))
     /\ Adv
 TGen ==
@@ -73,7 +81,7 @@ TGen ==
        /\ IF Ty \in NoTextForm THEN TRUE
           ELSE /\ Check(t, l, "GenericParse", e.parse = "ok")
                /\ Check(t, l, "GenericEncode", e.enc = "ok")
-               /\ Check(t, l, "GenericWire", e.wire1 = obs'.wire)
+               /\ Check(t, l, "GenericWire", WireOf(obs'.rel) = obs'.wire)
                /\ Check(t, l, "GenericEqual", EqFlag(obs'.rel))
                /\ IF lenient THEN TRUE ELSE Check(t, l, "TextAgain", e.t2 = "ok")
     /\ Adv
